@@ -112,6 +112,9 @@ pub fn worker(seed: u64, scen: u64, runs: u64, first_run: u64) {
         let delay_max = *r.pick(&[0u64, 200, 1000, 3000]);
         let yield_seed = r.next_u64();
         let yield_max = *r.pick(&[0u64, 100, 1500]);
+        // H5: where the index files of a run are cut must not matter either
+        let mut rf = Rng::new(seed ^ 0xF1A5).fork(scen * 1000 + run);
+        crate::evidence::set_flush(if rf.chance(1, 2) { None } else { Some(*rf.pick(&[1usize, 3, 7, 40])) });
         // H4: seeded sleeps between the pipeline stages
         let counter = Arc::new(std::sync::atomic::AtomicU64::new(0));
         {
